@@ -626,6 +626,35 @@ def run(prog, rep, tier):
     elif eqs == 0:
         raise CheckerError("decompress_to_ntf: member-path comparison not recognised")
 
+    # ------------------------------------------------------------ R5.11 concatenated members / frames
+    # gzip, bzip2, lz4 and xz files may consist of several members (streams, frames) written one after
+    # another; every standard tool decodes all of them (`cat a.gz b.gz | gzip -dc`).  The decoders used
+    # here stop after the first member, and the gzip length is taken from the last member's trailer, so
+    # such a file is cut short without any message.  Reported per decoder type in use (known finding F36).
+    R511 = rep.rule("R5.11", "compressed input is decoded with a decoder that continues over concatenated members")
+    SINGLE = {"flate2::read::GzDecoder": "gz", "flate2::bufread::GzDecoder": "gz", "bzip2_rs::DecoderReader": "bz2", "bzip2_rs::decoder::DecoderReader": "bz2",
+              "lz4_flex::frame::FrameDecoder": "lz4", "lz4_flex::frame::decompress::FrameDecoder": "lz4"}
+    seen511 = {}
+    for p_ in sorted(prog.facts.bodies):
+        if not (p_.startswith("s4lib::readers::blockreader::") or p_.startswith("s4lib::readers::filedecompressor::")) or "_tests" in p_:
+            continue
+        bd_ = prog.body(p_)
+        for c in bd_.live_calls():
+            st_ = (c.callee.get("self") or "") + " " + c.f
+            for ty_, kind_ in SINGLE.items():
+                if ty_ + "<" in st_ or ty_ + "::" in st_:
+                    if "MultiGzDecoder" in st_:
+                        continue
+                    seen511.setdefault(kind_, set()).add(p_.split("::")[-1])
+            if c.d.endswith("lzma_rs::xz_decompress") or c.d.endswith("::xz_decompress"):
+                seen511.setdefault("xz", set()).add(p_.split("::")[-1])
+    for kind_, fns_ in sorted(seen511.items()):
+        rep.examined(R511, "multi-member|" + kind_, sample={"container": kind_, "single_member_decoder_used_in": sorted(fns_)})
+        rep.violation(R511, "multi-member|" + kind_, "%s input is decoded with a single-member decoder (in %s); a file made of concatenated members - which `%s -dc` decodes completely - is cut after the first member "
+                      "(two 5-line members: 5 of 10 lines printed, exit 0; for xz an error and nothing printed)" % (kind_, sorted(fns_)[:3], {"gz": "gzip", "bz2": "bzip2", "lz4": "lz4", "xz": "xz"}[kind_]))
+    if not seen511:
+        raise CheckerError("R5.11: no decoder types recognised in blockreader/filedecompressor")
+
     # ------------------------------------------------------------ R5.9 lift of C03 R3.8
     import contextlib as _cl9, io as _io9
     import c03 as _c03l
